@@ -27,6 +27,7 @@ CONSTANTS
   StopHooksMayFail = FALSE
   DrainOnClose = TRUE
   ReportBeforeRelease = FALSE
+  ReserveIgnoresStarting = FALSE
 INIT TInit
 NEXT TNext
 POSTCONDITION Accepted
